@@ -22,7 +22,7 @@ import (
 
 // canaryRe matches the tokens made by canary(): Cnry<POS><payload#>x<serial>.
 // Element and attribute names are lower-cased by the parser, hence (?i).
-var canaryRe = regexp.MustCompile(`(?i)cnry([a-z]{2})(\d\d)x(\d+)`)
+var canaryRe = regexp.MustCompile(`(?i)cnry([a-z]{2})(\d\d)x(\d+)e`)
 
 type finding struct {
 	sig  string // coarse, stable
